@@ -117,6 +117,8 @@ def written_length(an, whole_results=None, depth=0):
                 continue
             hb = an.b.prog.bodies.get(m.group(1))
             if hb is None or depth > 3:
+                if m.group(1).endswith("io::Write::write"):
+                    return None, "bytes are handed to std::io::Write::write, which may write only part of the buffer and still return Ok"
                 return None, "helper %s not available" % m.group(1)
             han = whole_results.get(hb.id) if whole_results is not None else None
             if han is None:
